@@ -21,7 +21,7 @@ RULE = (
     "Generated: 1-3 tasks, each with 1-4 workers x 1-3 clients; each client a time-ordered list of samples (inter-arrival from "
     "{1/1024, 0.2, 0.9, 1.1, 5, 40} s, ops 0-5000, warm-up prefix then normal); a plan = sequence of (worker ships next n samples | "
     "driver post-processing tick), so arrival is in order per worker and out of order across workers; every case is run under two "
-    "independently drawn plans (1 in 120: a burst of 20 000 samples of one task inside one bucket). Non-trivial = (some task sees >= 3 non-empty batches of which two consecutive ones emit no throughput "
+    "independently drawn plans (1 in 120: a burst of 20 000 samples of one task inside one bucket); samples carry their client's progress (k of n, none for one client in three). Non-trivial = (some task sees >= 3 non-empty batches of which two consecutive ones emit no throughput "
     "value) or (a batch contains a sample older than one already delivered in an earlier batch). Distinct = distinct canonical JSON."
 )
 ASSUMPTIONS = [
